@@ -31,7 +31,7 @@ ASSUMPTIONS = [
 ]
 TRUSTED = ["CPython round()/format()/float()/int()/strftime/strptime are correctly rounded / as documented; the model computes the same results exactly and is compared with them on every case"]
 NOT_THEOREMS = ['stability clause (rewritten == written) for float fields: render(parse(render x)) = render x is a hypothesis (RenderLaw, third clause) of Props.C01.line_stable, validated here by exact text equality with the model on every case; the read-back clause IS a theorem for every layout without date fields in Spec.C01.inDomain (Props.C01.readBack_of_inDomain)',
-                'RenderLaw / ReadLaw for date fields (strptime after strftime = truncDate): hypothesis, validated per case',
+                
                 'Spec.C01.floatClauses (dialect, half-unit accuracy under |x|*10^D<2^51, maximal decimals): evaluated per case']
 EXHAUSTIVE = {"quick": False, "thorough": False}
 
